@@ -88,6 +88,14 @@ CHECKS = {
         note=PROOF_NOTE + "Modelled, not verified: numpy rounding as nearest-integer rounding; uniform independent draws behind 'in expectation'; np.arange/np.around discretisation; the Poisson kernel.",
         technique="Coq proof (field / linear rational arithmetic over regenerated expressions) + exact count correspondence + statistical oracles",
         design="§6 C07"),
+    "C09": dict(
+        text="The structure of the RSS-estimate branch and of the renormalisation tails (pipeline and engine) is recognised in the source on every run (sqrt of the sum over complex and coil axes of squares; safe_divide by it). "
+             "Theorems over the real numbers, per spatial location and for any number of coils and any coil values (zero coils, one coil, empty ACS, arbitrary refinement output): the sum over coils of squared magnitudes is 1 where there is signal and every value is exactly 0 where there is none; "
+             "the sum is always 0 or 1; the pipeline's second normalisation is idempotent; unit maps renormalise to unit sum; no division by zero is used (safe_divide). "
+             "Tied by exact correspondence on coil vectors with power-of-two root-sum-of-squares (Q model with exact square root, FFT-exact sizes). NaN/Inf freedom and |sum-1| < 1e-4 for random, tiny (1e-12) and huge magnitudes, Gaussian weighting, 3-D data and simulate_sensitivity_maps are oracles.",
+        note=PROOF_NOTE + "Uses Coq's Reals: axioms ClassicalDedekindReals.sig_not_dec, ClassicalDedekindReals.sig_forall_dec, FunctionalExtensionality.functional_extensionality_dep (standard library). Modelled, not verified: float under/overflow and rounding; torch broadcasting over locations; ESPIRiT.",
+        technique="Coq proof over the reals (field / nra; sqrt lemmas) on the normalisation recognised in the source + exact correspondence over Q + finiteness oracles",
+        design="§6 C09"),
     "C12": dict(
         text="Theorems for every file list, slice filter (step 1), context size and index: per-volume ranges are contiguous/ordered/partition 0..len-1, the i-th range holds exactly the admissible slices of file i in order, "
              "the context window has 2c+1 entries with entry j = slice s-c+j or a zero slice, and ConcatDataset's negative-index normalisation + bisect_right + offset lands in the member containing the index. "
